@@ -233,6 +233,13 @@ def run_history(case, d, want_regen=True):
             try:
                 if k == 'append':
                     val = build_value(specs[0])
+                    if fs is not None:
+                        signal.signal(signal.SIGXFSZ, signal.SIG_IGN)
+                        vsz = os.path.getsize(os.path.join(path, 'values', 'arrayvalues.bin'))
+                        isz = os.path.getsize(os.path.join(path, 'indices', 'arrayvalues.bin'))
+                        cur = vsz if fs['file'] == 'values' else isz
+                        soft, hard = resource.getrlimit(resource.RLIMIT_FSIZE)
+                        resource.setrlimit(resource.RLIMIT_FSIZE, (cur + fs['k'], hard))
                     res = call(lambda: ra.append(val))
                 elif op.get('aslist'):
                     vals2 = [build_value(s) for s in specs]
